@@ -211,8 +211,10 @@ class Interp:
             def inner(err, attempts_made):
                 d = decisions[min(attempts_made - 1, len(decisions) - 1)]
                 if d[0] == "retry":
-                    return RetryDecision.retry(duration(d[1]))
-                return RetryDecision.no_retry()
+                    if attempts_made % 2:
+                        return RetryDecision.retry(duration(d[1]))
+                    return RetryDecision(should_retry=True, delay=duration(d[1]))  # plain constructor, equally public
+                return RetryDecision.no_retry() if attempts_made % 2 else RetryDecision(should_retry=False, delay=C.Duration())
 
         def strategy(err, attempts_made):
             d = inner(err, attempts_made)
@@ -359,6 +361,12 @@ class Interp:
                 new = (state, attempt)
             elif beh.get("fn") == "append":
                 new = list(state) + [attempt]
+            elif beh.get("fn") == "mutate":  # in-place update, the same object is returned
+                if isinstance(state, dict):
+                    state["n%d" % attempt] = attempt
+                else:
+                    state.append(attempt)
+                new = state
             else:
                 new = state + 1
             rt.rpc("fn_exit", path=path, fnkind="check", outcome="ok", new=canon(new))
